@@ -169,10 +169,14 @@ func tagOf(x any) int {
 func seqEvent(enter bool, kind string, depth int, n duct.AstSeq) event {
 	return event{Enter: enter, Kind: kind, Depth: depth, Root: n.Root, Deferred: n.Deferred, Kids: len(n.Seq)}
 }
-func (v *visitor) OnEnterMorphism(d int, n duct.AstSeq) error { return v.rec(seqEvent(true, "morphism", d, n)) }
-func (v *visitor) OnLeaveMorphism(d int, n duct.AstSeq) error { return v.rec(seqEvent(false, "morphism", d, n)) }
-func (v *visitor) OnEnterSeq(d int, n duct.AstSeq) error      { return v.rec(seqEvent(true, "seq", d, n)) }
-func (v *visitor) OnLeaveSeq(d int, n duct.AstSeq) error      { return v.rec(seqEvent(false, "seq", d, n)) }
+func (v *visitor) OnEnterMorphism(d int, n duct.AstSeq) error {
+	return v.rec(seqEvent(true, "morphism", d, n))
+}
+func (v *visitor) OnLeaveMorphism(d int, n duct.AstSeq) error {
+	return v.rec(seqEvent(false, "morphism", d, n))
+}
+func (v *visitor) OnEnterSeq(d int, n duct.AstSeq) error { return v.rec(seqEvent(true, "seq", d, n)) }
+func (v *visitor) OnLeaveSeq(d int, n duct.AstSeq) error { return v.rec(seqEvent(false, "seq", d, n)) }
 func (v *visitor) OnEnterMap(d int, n duct.AstMap) error {
 	return v.rec(event{Enter: true, Kind: "map", Depth: d, A: n.TypeA, B: n.TypeB, Tag: tagOf(n.F)})
 }
@@ -401,8 +405,14 @@ func check(t interface{ Fatalf(string, ...any) }, sc Scenario) {
 	}
 }
 
-func TestC16(t *testing.T) {
-	rapid.Check(t, func(t *rapid.T) { check(t, gen(t)) })
+func propC16(t *rapid.T) { check(t, gen(t)) }
+
+func TestC16(t *testing.T) { rapid.Check(t, propC16) }
+
+func FuzzC16(f *testing.F) {
+	f.Add([]byte{})
+	f.Add([]byte("\x01\x02\x03\x04\x05\x06\x07\x08"))
+	f.Fuzz(rapid.MakeFuzz(propC16))
 }
 
 // TestC16Enum: all well-typed programs up to a length bound over a 6-type sub-universe.
